@@ -569,7 +569,10 @@ def compile_family(tier):
              # two different locks of one kind in one policy: the policy cache must tell them apart
              ("and", [("and", [A, O5]), O9]), ("and", [("and", [A, O5]), H]), ("and", [("or", [A, B]), ("or", [C, D])]),
              # constants: a trivially true alternative must not make a path signature-free, a false one must not add or hide one
-             ("and", [A, ("or", [B, ("T",)])]), ("or", [A, ("T",)])]
+             ("and", [A, ("or", [B, ("T",)])]), ("or", [A, ("T",)]),
+             # n-ary and / or can be built by hand (the parser only makes binary ones): the compiler reads two children, so
+             # such a policy must be refused, not compiled with its tail dropped
+             ("or", [A, B, C]), ("and", [A, B, C]), ("and", [A, ("or", [B, C, D])])]
     tap_too = [("and", [A, B]), ("thresh", 2, [A, B, C]), ("thresh", 2, [A, B, O5]), ("and", [("and", [A, O5]), O9])]
     quick = [(p, "segwitv0") for p in cheap + mixed] + [(p, "tap") for p in tap_too + mixed]
     # the pre-segwit contexts: MINIMALIF is not a consensus rule there, so the compiler must do without or_i / d:
